@@ -164,6 +164,13 @@ def cases(ctx):
                 cols = rng.choice(['rowID', 'rowID,serial', 'name', 'serial,x,chainID', '*', 'x,y,z'])
                 add(spec, cols, tn, kws, 'length-grid')
                 i += 1
+    # --- a long list on the key `model` (the table has one model, 0)
+    for L in [950, 951, 1000, 1901]:
+        for neg in ('', 'no_'):
+            for vals in (list(range(L)), list(range(1, L + 1)), list(range(L - 1, -1, -1))):
+                spec = specs[0]
+                kws = [(neg + 'model', vals)] + further_conds(rng, {'model'}, 60, rng.choice(['none', 'scalar']))
+                add(spec, rng.choice(['rowID', 'serial,model']), 'atom', kws, 'long-list-on-model')
     # --- two long lists / combined limit
     for rep in range(ctx.scale(14, 80)):
         spec = rng.choice(small if rep % 5 else specs)
